@@ -815,7 +815,20 @@ def rule_r5(ctx) -> List[R.Inst]:
         shapes[pred] = t
         slot = ws.get((idx, None))
         good = sep == "," and n == ln and slot is not None and slot[0] == "lit" and slot[1] == str(val)
-        if good:
+        # the flag slot is the ONLY slot the classifier may consult: any further test reads a slot the writer fills from a field
+        # of the object, so the lines the writer emits for some field values are not recognised (and silently dropped on read)
+        flag_cmp = [c for c in ast.walk(cfn_.node) if isinstance(c, ast.Compare) and len(c.ops) == 1 and isinstance(c.ops[0], ast.Eq) and
+                    (C.subscript_const_index(c.left) or (None, None))[1] == idx]
+        extra = [x for x in ast.walk(cfn_.node) if C.subscript_const_index(x) and not any(x is y for c in flag_cmp for y in ast.walk(c))]
+        extra = [x for x in extra if (ws.get((C.subscript_const_index(x)[1], None)) or ("?",))[0] != "lit"]
+        if good and extra:
+            si = C.subscript_const_index(extra[0])[1]
+            insts.append(R.viol("C01.R5", pred, file, extra[0].lineno,
+                                f"{pred} also consults slot {si} ('{unparse(extra[0])}'), which {name}.write_string fills from the object "
+                                f"({ws.get((si, None))}): the writer emits lines for every value of that field, the classifier accepts only some "
+                                f"— the others are dropped on read (e.g. a negative multiplier is written as a positive code)",
+                                construct=f"{pred}: extra test on slot {si}"))
+        elif good:
             insts.append(R.ok("C01.R5", pred, file, line, idiom=f"{ln} comma fields, slot {idx} is literal {val!r}"))
         else:
             insts.append(R.viol("C01.R5", pred, file, line,
